@@ -116,8 +116,14 @@ func newWorld(abilities []string) (w *world, err any) {
 		config.WithLoggerProvider(log.FunctionalLoggerProvider(func() *log.Logger { return logger }))
 	}))
 	w.mgr = cluster.VerifNewManager(w.sys, func(config *cluster.ActorSystemConfiguration) {
+		// every ability is declared with a shared "common settings" configurator that also names the actor: the
+		// manager's own naming (identity as prefix, ability as name) must be applied last and win, otherwise
+		// distinct (identity, ability) pairs collide on one address
+		common := vivid.FunctionalActorDescriptorConfigurator(func(d *vivid.ActorDescriptor) {
+			d.WithNamePrefix("common").WithName("worker")
+		})
 		for _, a := range abilities {
-			config.WithAbility(a, w.abilityProvider())
+			config.WithAbility(a, w.abilityProvider(), common)
 		}
 	})
 	w.mgrRef = w.sys.ActorOf(w.mgr, vivid.FunctionalActorDescriptorConfigurator(func(d *vivid.ActorDescriptor) {
